@@ -4,10 +4,10 @@ package auctioneer
 
 import "github.com/lightninglabs/pool/auctioneerrpc"
 
-// NewVerifSignClient returns a Client whose server stream is the given
+// VerifC05NewClient returns a Client whose server stream is the given
 // (recording) stream, so that SendAuctionMessage hands every message to it.
 // Used by the C05 harness only; never compiled without the `verif` tag.
-func NewVerifSignClient(
+func VerifC05NewClient(
 	stream auctioneerrpc.ChannelAuctioneer_SubscribeBatchAuctionClient) *Client {
 
 	return &Client{serverStream: stream}
